@@ -389,11 +389,21 @@ def run(ctx) -> None:
     ctx.check(ok, "R-UNPACK", f"{un.qualname}:values-weights", un.loc(loop),
               "values and weights expanded with the same axes",
               f"expanded {srcs} over {sorted(axes_exprs)}: values and weights are not aligned", key_detail="expand")
-    wst = [st for st in dist_arm if isinstance(st, ast.Assign) and isinstance(st.targets[0], ast.Name)
-           and st.targets[0].id == weights_var]
-    ok = len(wst) == 1 and any(isinstance(b, ast.BinOp) and isinstance(b.op, ast.Mult) and
-                               weights_var in (dotted(b.left), dotted(b.right)) and dotted(b.left) != dotted(b.right)
-                               for b in ast.walk(wst[0]))
+    wst = [st for top in dist_arm for st in ast.walk(top) if isinstance(st, (ast.Assign, ast.AugAssign))
+           and isinstance(st.targets[0] if isinstance(st, ast.Assign) else st.target, ast.Name)
+           and (st.targets[0] if isinstance(st, ast.Assign) else st.target).id == weights_var]
+
+    def _is_product(st) -> bool:
+        if isinstance(st, ast.AugAssign):
+            return isinstance(st.op, ast.Mult) and dotted(st.value) != weights_var
+        return any(isinstance(b, ast.BinOp) and isinstance(b.op, ast.Mult) and
+                   weights_var in (dotted(b.left), dotted(b.right)) and dotted(b.left) != dotted(b.right)
+                   for b in ast.walk(st))
+
+    # one accumulation `weights = weights * new` (as a conditional expression or in the arm of a test on the
+    # accumulator); any other definition only starts the product with the first weights
+    ok = sum(_is_product(st) for st in wst) == 1 and all(
+        _is_product(st) or isinstance(st.value, ast.Name) for st in wst)
     ctx.check(ok, "R-UNPACK", f"{un.qualname}:weights-product", un.loc(wst[0] if wst else loop),
               "joint weight = product of the distributions' weights",
               "the joint weight is not the product of the individual weights", key_detail="weights")
@@ -1169,3 +1179,67 @@ def run(ctx) -> None:  # noqa: F811
     n = _axis_pair_rule(ctx, repo, classes)
     ctx.require(n >= 6, f"R-AXISPAIR examined only {n} axis constructors")
     _inner_run_c03d(ctx)
+
+
+# ---- added after the seeded change C03-r4seed2: the array a kernel returns is linear in the ensemble weights
+_inner_run_c03e = run
+
+
+def _weight_linear_rule(ctx) -> int:
+    from ..rules import weightlin
+
+    repo = ctx.repo
+    un = repo.function(DIST, "_unpack_distributions")
+    kernels = [f for f in repo.all_functions() if f is not un and not f.is_abstract and weightlin.unpack_calls(f)]
+    n = 0
+    for f in sorted(kernels, key=lambda g: g.qualname):
+        v = weightlin.decide(f)
+        n += 1
+        construct = f"{f.qualname}:returned array"
+        if v.kind == "linear":
+            ctx.ok("R-WEIGHTLINEAR", construct, f.where,
+                   f"weights x (term free of the weights) on {v.n_paths} path(s) after the unpacking "
+                   f"({v.n_exempt} path(s) return before it or without weights)")
+            continue
+        for detail, text, node in v.problems:
+            if detail == "discarded":
+                ctx.violation("R-WEIGHTLINEAR", construct, f.loc(node),
+                              f"{f.short} unpacks its distributions but throws the weights returned by "
+                              "_unpack_distributions away: the returned array does not depend on them, member i is not "
+                              "weight_i x (the array of value i) as it is for the kernels that apply them, and an "
+                              "averaged (ensemble_mean) axis is the plain mean whatever weights the distribution defines",
+                              key_detail="discarded")
+            elif detail == "dropped":
+                ctx.violation("R-WEIGHTLINEAR", construct, f.loc(node),
+                              f"{f.short}: {text} although they were unpacked and are not None on that path: member i "
+                              "is not weight_i x (the array of value i)", key_detail="dropped")
+            else:
+                ctx.violation("R-WEIGHTLINEAR", construct, f.loc(node),
+                              f"{f.short}: {text}; the returned array is not weight_i x (the array of the scalar value "
+                              "i): the weights of a distribution scale something else than the amplitude of member i, "
+                              "so neither the members nor the averaged axis are what the distribution defines",
+                              key_detail="nonlinear")
+    return n
+
+
+def run(ctx) -> None:  # noqa: F811
+    from ..rules import deferred
+
+    ctx.rule("R-WEIGHTLINEAR", "every function that unpacks parameter distributions with _unpack_distributions(...) "
+             "(which returns the broadcast values and the broadcast product of the distributions' weights) returns, on "
+             "every path after the unpacking on which the weights are not None, a term that is LINEAR in those "
+             "weights: in the polynomial normal form of the returned value (symbolic execution of the body, all "
+             "branches) every monomial carries the weights exactly to the first power as an outer factor, and the "
+             "weights occur nowhere inside the argument of a non-linear construct (complex_exponential, exp, sqrt, "
+             "abs, a power, a quotient ...); the weights may not be thrown away either.  Otherwise member i is not "
+             "weight_i x (the run with value i) and an averaged axis is not the weighted mean the distribution defines. "
+             "The weights are identified by their origin, not by a name; casts, transports (asnumpy), indexing, "
+             "temporaries, `*=` and commuted products are read through")
+    ctx.undecided("weights of distributions that a kernel reads without _unpack_distributions (Aperture.semiangle_cutoff "
+                  "through xp.asarray, the beam tilts): those kernels never see the weights")
+
+    def new():
+        n = _weight_linear_rule(ctx)
+        ctx.require(n >= 2, f"R-WEIGHTLINEAR examined only {n} functions that call _unpack_distributions")
+
+    deferred.run(ctx, new, _inner_run_c03e)
